@@ -199,6 +199,13 @@ class TickPersistenceDecorator(BaseRuntimeDecorator):
         serializer = JsonSerializer()
         legacy_ctx = self._get_legacy_ctx(run_id)
 
+        # The reducer routes exhausted failures with the workflow's @catch_error
+        # tables, which are normally filled by run(). After a server restart this
+        # replay happens before any run() of the workflow instance.
+        workflow._validate()
+        if workflow._disable_validation:
+            workflow._build_catch_error_routing()
+
         tick_stream = stream_workflow_ticks(self._store, run_id)
         try:
             first_tick = await tick_stream.__anext__()
